@@ -60,8 +60,10 @@ def ir_merge(target, other):
             ):
                 target_params[name]["default"] = other_params[name]["default"]
 
-        for name in other_params.keys() - target_params.keys():
-            target_params[name] = other_params[name]
+        # In the order of `other`, not in the (hash-seed dependent) order of a set
+        for name in other_params:
+            if name not in target_params:
+                target_params[name] = other_params[name]
 
         target["params"] = target_params
 
